@@ -85,7 +85,17 @@ int main(int argc, char** argv) {
          double lo = 1e300; for (double* q : g3) lo = std::min(lo, std::fabs(*q));
          for (double* q : g3) if (std::fabs(*q) > 3e4 * lo) *q *= r.U(0.1, 1) * 3e4 * lo / std::fabs(*q);   // (each with its own factor: two parameters capped to the same value would be exactly degenerate, and the couplings of a degenerate pair are not defined)
       }
-      J c = p.json(); c.i("hierarchy", hier);
+      // uniformly heavy spectra (all dimensionful parameters scaled by a common factor up to 30: multi-TeV gauginos and higgsinos with multi-TeV sfermions) -
+      // the region where 'decoupled' / 'gaugeless' shortcuts of the resummation factors would be taken
+      const bool heavy = !hier && r.chance(0.2);
+      if (heavy) {
+         const double k = r.LU(2, 30);
+         double* q[] = {&p.mu, &p.m1, &p.m2, &p.m3, &p.ma, &p.Q, &p.ml[0], &p.ml[1], &p.ml[2], &p.me[0], &p.me[1], &p.me[2], &p.mq[0], &p.mq[1], &p.mq[2], &p.mU[0], &p.mU[1], &p.mU[2], &p.mD[0], &p.mD[1], &p.mD[2],
+                        &p.Ae[0], &p.Ae[1], &p.Ae[2], &p.Au[0], &p.Au[1], &p.Au[2], &p.Ad[0], &p.Ad[1], &p.Ad[2]};
+         for (double* x : q) *x *= k;
+         o.count("pairs with a uniformly heavy spectrum (common factor 2..30)");
+      }
+      J c = p.json(); c.i("hierarchy", hier).i("heavy", heavy);
       try {
          // the flipped twin: a fresh object, a copy of the calculated original re-filled through the setters, or a long-lived object re-filled for every case (scan loop)
          const int twin = static_cast<int>(i % 3);
